@@ -9,6 +9,8 @@ a `Plan` turns exactly one ordinal into a fault:
   after:<ERRNO>   perform the call, then raise (e.g. close() failing after data hit disk)
   short:<k>       os.write really writes the first k bytes only and returns k
   exc:<Name>      raise that exception class (py_compile failures)
+  kill_before / kill_after / kill_mid   SIGKILL the (forked) process right before / after the
+                  call, or after half of a write - crash points at call-site granularity
 """
 import errno
 import os
@@ -80,6 +82,14 @@ class Proxy(object):
                     real(*a, **kw)
                     entry[3] = 'done, then injected ' + arg
                     raise OSError(getattr(errno, arg), 'injected %s after %s' % (arg, qual))
+                if kind == 'kill_before':
+                    os.kill(os.getpid(), 9)
+                if kind == 'kill_after':
+                    real(*a, **kw)
+                    os.kill(os.getpid(), 9)
+                if kind == 'kill_mid' and name == 'write':
+                    real(a[0], a[1][:max(0, len(a[1]) // 2)])
+                    os.kill(os.getpid(), 9)
             r = real(*a, **kw)
             entry[3] = 'ok'
             if name in ('open', 'fdopen', 'NamedTemporaryFile') and hasattr(r, 'write') and \
